@@ -26,9 +26,10 @@ PROPS = {
         "assumptions": COMMON_ASSUME + ["type tags are 8-byte non-zero discriminators"],
     },
     "C04": {
-        "harness_feature": "f_tlv",
+        "harness_feature": "f_tlv,f_varlen",
         "lean_module": "SplProofs.C04",
-        "streams": ["C04"],
+        # second stream: C15's account histories (a failing account-level rewrite must leave the account as it was)
+        "streams": ["C04", "C15"],
         "rule": "stream tlvhist: histories from a zeroed buffer (sizes 0..300, weighted to exact fit and +-1..12 around it) over an adversarial 8-tag palette and value sizes 0/1/3/5(non-zero default)/8/32 and variable lengths: alloc +-repetition, init_value, realloc to 0 / same / exact fit / fit+1 / > u32::MAX, byte and typed writes through the mutable views, var-len pack (streaming packer), alloc_and_pack, lookups (incl. the get_first_* / *_first_* wrappers for repetition 0), get_discriminators, reopen through the three views; the generator steers towards failing operations at every state; plus special cases outside the line protocol's buffers: entries whose length needs the 3rd/4th length byte (up to 16 MiB) and a 4 GiB zeroed buffer for the length-not-representable failure; after every op the raw buffer, returned slice range (pointer arithmetic) and repetition number are compared with the model and with a shadow Vec<(tag, Vec<u8>)> + independent canonical encoder;  plus histories that start from openable but non-canonical buffers (entries, terminator, garbage); non-trivial = history that reaches a state with >= 1 entry and executes >= 1 failing mutation there",
         "assumptions": COMMON_ASSUME + ["type tags are 8-byte non-zero discriminators"],
     },
